@@ -1442,10 +1442,45 @@ class ForAll(BinaryOperator):
     @property
     @lru_cache(maxsize=None)
     def condition_unique_variable_ids(self) -> List[int]:
-        # literals are not bindings of the query's variables: their values never differ between the universal
-        # values, and results served from the operator caches do not carry them.
-        return [v.id_ for v in self.condition._unique_variables_.difference(self.left._unique_variables_)
-                if not isinstance(v.value, Literal)]
+        return [v._id_ for v in self.condition_unique_variables]
+
+    @property
+    @lru_cache(maxsize=None)
+    def condition_unique_variables(self) -> List[Variable]:
+        """
+        The non-universal variables of the condition whose bindings are intersected. Literals and predicate calls
+        are not among them: they are not bindings of the query's variables, their values are determined by those
+        bindings, and results served from the operator caches or from the branch of a disjunction that did not need
+        them do not carry them.
+        """
+        return [v.value for v in self.condition._unique_variables_.difference(self.left._unique_variables_)
+                if not isinstance(v.value, Literal) and not v.value._predicate_type_]
+
+    @lru_cache(maxsize=None)
+    def _required_variables_from_child_(self, child: Optional[SymbolicExpression] = None, when_true: bool = True):
+        required_vars = super()._required_variables_from_child_(child, when_true)
+        if child is self.condition:
+            # the condition is evaluated once per value of the universal variable, its results for one value are not
+            # duplicates of its results for another.
+            required_vars.update(self.variable._unique_variables_)
+        return required_vars
+
+    def _bind_unbound_condition_variables_(self, bindings: Dict[int, HashedValue],
+                                           variables: Optional[List[Variable]] = None) \
+            -> Iterable[Dict[int, HashedValue]]:
+        """
+        A condition that holds may leave some of its non-universal variables unbound (a disjunction binds only the
+        variables of the branch that holds), which means that it holds for all their values. Bind them over their
+        domains, such that every binding that is kept and intersected covers the same variables.
+        """
+        if variables is None:
+            variables = [v for v in self.condition_unique_variables if v._id_ not in bindings]
+        if not variables:
+            yield bindings
+            return
+        variable, remaining_variables = variables[0], variables[1:]
+        for variable_val in variable._evaluate__(copy(bindings)):
+            yield from self._bind_unbound_condition_variables_({**bindings, **variable_val}, remaining_variables)
 
     def _evaluate__(self, sources: Optional[Dict[int, HashedValue]] = None,
                     yield_when_false: bool = False) -> Iterable[Dict[int, HashedValue]]:
@@ -1461,12 +1496,17 @@ class ForAll(BinaryOperator):
             current = []
 
             # Evaluate the condition under this particular universal value
+            seen = set()
             for condition_val in self.condition._evaluate__(ctx):
                 if self.condition._is_false_:
                     continue
-                # Keep only the non-universal variables from the condition bindings
-                filtered = {k: v for k, v in condition_val.items() if k in self.condition_unique_variable_ids}
-                current.append(filtered)
+                for complete_val in self._bind_unbound_condition_variables_(condition_val):
+                    # Keep only the non-universal variables from the condition bindings
+                    filtered = {k: v for k, v in complete_val.items() if k in self.condition_unique_variable_ids}
+                    key = tuple(sorted(filtered.items()))
+                    if key not in seen:
+                        seen.add(key)
+                        current.append(filtered)
 
             # If the condition yields no satisfying bindings for this universal value, the universal fails
             if not current:
